@@ -42,7 +42,7 @@ def parse_color(attr_value: str) -> styles.ColorType:
 
     return styles.NamedColors[lower_attr_value].value
 
-  m = _HEX_COLOR_RE.match(attr_value)
+  m = _HEX_COLOR_RE.fullmatch(attr_value)
 
   if m:
 
@@ -55,7 +55,7 @@ def parse_color(attr_value: str) -> styles.ColorType:
       )
     )
 
-  m = _DEC_COLOR_RE.match(attr_value)
+  m = _DEC_COLOR_RE.fullmatch(attr_value)
 
   if m:
 
@@ -68,7 +68,7 @@ def parse_color(attr_value: str) -> styles.ColorType:
       )
     )
 
-  m = _DEC_COLORA_RE.match(attr_value)
+  m = _DEC_COLORA_RE.fullmatch(attr_value)
 
   if m:
 
